@@ -108,7 +108,7 @@ def gen_plan(prop, run_seed, tier):
     F = Forks(run_seed)
     w, s = F.fork("workload"), F.fork("schedule")
     policy = s.choice(["none", "none", "kper", "scripted"])
-    n_plates = w.choice([1, 2, 3, 4, 5, 6, 8, 10, 12])
+    n_plates = w.choice([1, 2, 3, 4, 5, 6, 8, 10, 12, 12, 16, 17, 19, 23, 31])
     if w.random() < 0.05:  # more plates than any plausible block size
         n_plates = w.choice([33, 70, 130])
     spec = pipe.gen_pipeline_screen(w, n_plates=n_plates, single_sample_plates=(policy == "kper"),
@@ -127,7 +127,8 @@ def gen_plan(prop, run_seed, tier):
     if w.random() < 0.25:
         gen.add_space_extra(w, spec)
     return dict(engine="scoresim", prop=prop, screen=spec, scorer=scorer, n_thetas=w.randint(3, 5), D=w.randint(1, 2),
-                seed=w.randrange(2**31), n_chunks=s.choice([1, 1, 2, 3, 4, n_plates, n_plates + 1, n_plates + 4, 16]),
+                seed=w.randrange(2**31), n_chunks=s.choice([1, 1, 2, 3, 4, n_plates, n_plates + 1, n_plates + 4, 16, 7, 11, 13, s.randint(1, n_plates + 4),
+                                   s.randint(max(1, n_plates // 2), n_plates + 1)]),
                 batch_mode=s.choice(["none", "none", "unobserved", "unobserved", "observed", "mixed", "all"]),
                 order_seed=s.randrange(2**31), policy=policy, k=s.randint(1, 3), path=s.choice(["cli", "func", "func-shared"]),
                 tie_mode=w.choice(["distinct", "ties", "ties", "neginf", "all-equal", "near-ties", "near-ties"]), max_chunk=w.choice([1, 2, 50]))
